@@ -60,6 +60,8 @@ let temp_random = bytes_of_string "123456"
 let comp_descstore : Registry.comp = fun params ->
   let wr = b (List.nth params 0) in
   let st : DescStore.file ref = ref None in
+  let cache : DescStore.file ref = ref None in
+  let pending : Etag.str option ref = ref None in
   let do_op o =
     let (f', out) = DescStore.step wr !st o in
     st := f'; out in
@@ -110,6 +112,32 @@ let comp_descstore : Registry.comp = fun params ->
        st := f';
        let s = int_of_z status in
        if s = 201 || s = 204 then "1" else "0"
+    | ["load"] ->
+       (* group.Add(name, nil): the in-memory copy is replaced unless
+          descriptionUnchanged *)
+       cache := DescStore.get_description !cache !st;
+       (match !cache with None -> "notexist" | Some _ -> "ok")
+    | ["hget"; form; im; inm] ->
+       let v = if form = "0" then DescStore.get_description !cache !st else !st in
+       (match v with
+        | None -> "404 - -"
+        | Some (c, s) ->
+           let etag = DescStore.make_etag s in
+           (match Etag.check_preconditions Etag.m_GET etag (bytes_of_hex im) (bytes_of_hex inm) with
+            | Etag.CpDone x -> zs x ^ " " ^ hex_of_bytes etag ^ " -"
+            | Etag.CpNotDone -> "200 " ^ hex_of_bytes etag ^ " " ^ zs c.DescStore.c_desc
+            | Etag.CpOutOfFuel -> "OUT-OF-FUEL"))
+    | ["lsread"; kind; t; im; inm; arg] ->
+       pending := DescStore.read_step (req_of kind t im inm arg) !st; "-"
+    | ["lswrite"; kind; t; im; inm; arg; size; mtime] ->
+       let r = req_of kind t im inm arg in
+       (match !pending with
+        | None -> "404"
+        | Some e ->
+           let (f', h) = DescStore.write_step wr r e !st (z size, z mtime) in
+           st := f';
+           let s = int_of_z (DescStore.http_status r h) in
+           if s = 201 || s = 204 then "2xx" else string_of_int s)
     | ["rwrace"; _] ->
        (* readers take content and stamp from ONE version (read_description):
           no served pair is foreign (C18_content_matches_tag) *)
